@@ -106,12 +106,7 @@ where
             let start = *cur;
             *cur = unsafe { sid.next_unchecked() };
             if let Some(max_streams) = self.ctrl.on_accept_streams(sid.dir(), sid.id()) {
-                self.max[idx] = max_streams;
-                self.max_tx.send_frame([MaxStreamsFrame::with(
-                    sid.dir(),
-                    VarInt::from_u64(max_streams)
-                        .expect("max_streams must be less than VARINT_MAX"),
-                )]);
+                self.raise_limit(sid.dir(), max_streams);
             }
             Ok(AcceptSid::New(NeedCreate { start, end: sid }))
         }
@@ -123,9 +118,18 @@ where
         }
 
         if let Some(max_streams) = self.ctrl.on_end_of_stream(sid.dir(), sid.id()) {
-            self.max[sid.dir() as usize] = max_streams;
+            self.raise_limit(sid.dir(), max_streams);
+        }
+    }
+
+    /// Advertise a new stream limit. A limit that was advertised can never be taken back
+    /// (the peer ignores a MAX_STREAMS frame that does not increase it), so only a value
+    /// above the limit in force is applied and sent.
+    fn raise_limit(&mut self, dir: Dir, max_streams: u64) {
+        if max_streams > self.max[dir as usize] {
+            self.max[dir as usize] = max_streams;
             self.max_tx.send_frame([MaxStreamsFrame::with(
-                sid.dir(),
+                dir,
                 VarInt::from_u64(max_streams).expect("max_streams must be less than VARINT_MAX"),
             )]);
         }
@@ -136,12 +140,15 @@ where
             StreamsBlockedFrame::Bi(max) => (Dir::Bi, max.into_u64()),
             StreamsBlockedFrame::Uni(max) => (Dir::Uni, max.into_u64()),
         };
-        if let Some(max_streams) = self.ctrl.on_streams_blocked(dir, max_streams) {
-            self.max[dir as usize] = max_streams;
-            self.max_tx.send_frame([MaxStreamsFrame::with(
-                dir,
-                VarInt::from_u64(max_streams).expect("max_streams must be less than VARINT_MAX"),
-            )]);
+        // The frame carries the limit the peer is blocked at. A value below the limit in force
+        // is stale (our MAX_STREAMS is still in flight) and a value above it was never
+        // advertised, so the strategy is only ever asked about the limit in force.
+        let current = self.max[dir as usize];
+        if max_streams < current {
+            return;
+        }
+        if let Some(max_streams) = self.ctrl.on_streams_blocked(dir, current) {
+            self.raise_limit(dir, max_streams);
         }
     }
 }
